@@ -42,7 +42,7 @@ def run(rep, tier):
     rep.explanation = (
         "The meta-grammar is read from meta/src/grammar.pest by pv/pestgram.py (independent of pest_meta); the "
         "consumer is read from the typed HIR of pest_meta::parser.")
-    rep.configs = ["default", "extras"]
+    rep.configs = rep.cfgs(["default", "extras"])
     try:
         g = pestgram.rules_dict(pestgram.parse_file(facts.REPO + "/" + GRAMMAR))
     except Exception as e:  # fail closed
